@@ -104,7 +104,7 @@ def run(ctx):
         "not judged: TempoChange.AbsTimeMicroSec and TrackEvent.AbsMicroSeconds (C11); the timestamp Track.SendTo passes (undocumented); sysex in SendTo (all or none); SMF.String",
         "an SMF.Add of an unclosed track returns an error AND appends the track (WriteTo then closes it with delta 0), as in spec/SmfWrite.tla",
     ]
-    ctx.model_check("MC_TrackIter", "MC_TrackIter_quick.cfg" if q else "MC_TrackIter.cfg", timeout=240 if q else 2400)
+    ctx.model_check("MC_TrackIter", "MC_TrackIter_quick.cfg" if q else "MC_TrackIter.cfg", timeout=900 if q else 2400)
     recs = []
     for s in ([ctx.seed] if q else [ctx.seed * 100 + i for i in range(6)]):
         recs += gen(ctx, 1200 if q else 4000, s)
